@@ -58,6 +58,21 @@ def check_one(t, src, data):
         t.violation("change_extension_functions_to_calls:idempotent", "second application changes "
                     "the tree", src, unparse(got), unparse(again), replay)
         return
+    # a converted tree that is edited in place afterwards (a method-form sub-query grafted under
+    # the same root) is an ordinary input again: every method-form operator call in it is
+    # rewritten (seed C17_f: a "converted" tag on the root made the second pass a no-op)
+    if has_method and isinstance(got, ast.Call) and got.args:
+        edited = got
+        edited.args[0] = copy.deepcopy(q)
+        expected2 = spec.erase_method_form(copy.deepcopy(edited), names)
+        again2 = change_extension_functions_to_calls(edited)
+        t.contract("result of a conversion, edited in place, converts like any other tree")
+        if not specrt.same(again2, expected2) or not spec.no_method_op(again2, names):
+            t.violation("change_extension_functions_to_calls:ensures same(result, erase_method_form(q))",
+                        "a converted tree that was edited in place is not converted again", src,
+                        unparse(expected2), unparse(again2), dict(replay, step="re-convert after edit"))
+            return
+        got = change_extension_functions_to_calls(copy.deepcopy(q))
     for i, d in enumerate(data):
         r0 = sem.run(q, {"ds": d})
         if r0[0] != "ok":
